@@ -41,12 +41,19 @@ fn lvl(m: &Metadata<'_>) -> u8 {
     if l == tracing_core::Level::ERROR { 1 } else if l == tracing_core::Level::WARN { 2 } else if l == tracing_core::Level::INFO { 3 } else if l == tracing_core::Level::DEBUG { 4 } else { 5 }
 }
 
-pub struct Rec;
+/// `Rec(true)` is a second collector writing the same log, which reports as its current span the most recently created
+/// span id (collectors number their spans independently: the numbers of two collectors may coincide)
+pub struct Rec(pub bool);
+thread_local! {
+    static LASTMETA: RefCell<Option<&'static Metadata<'static>>> = RefCell::new(None);
+    static UNDER_REC: RefCell<bool> = RefCell::new(false);
+}
 impl Collect for Rec {
     fn register_callsite(&self, _: &'static Metadata<'static>) -> Interest { Interest::always() }
     fn enabled(&self, _: &Metadata<'_>) -> bool { true }
     fn new_span(&self, a: &span::Attributes<'_>) -> span::Id {
         let id = NEXT.with(|n| { let mut n = n.borrow_mut(); *n += 1; *n });
+        LASTMETA.with(|m| *m.borrow_mut() = Some(a.metadata()));
         let mut v = V(Vec::new());
         a.record(&mut v);
         let parent = if a.is_root() { "root".to_string() } else if a.is_contextual() { format!("ctx{}", STACK.with(|s| s.borrow().last().map(|_| 1).unwrap_or(0))) } else { "explicit".into() };
@@ -64,7 +71,12 @@ impl Collect for Rec {
     fn enter(&self, id: &span::Id) { STACK.with(|s| s.borrow_mut().push(id.into_u64())); LOG.with(|l| l.borrow_mut().push("enter".into())); }
     fn exit(&self, _: &span::Id) { STACK.with(|s| { s.borrow_mut().pop(); }); LOG.with(|l| l.borrow_mut().push("exit".into())); }
     fn try_close(&self, _: span::Id) -> bool { LOG.with(|l| l.borrow_mut().push("close".into())); true }
-    fn current_span(&self) -> span::Current { span::Current::unknown() }
+    fn current_span(&self) -> span::Current {
+        match (self.0, LASTMETA.with(|m| *m.borrow())) {
+            (true, Some(m)) => span::Current::new(span::Id::from_u64(NEXT.with(|n| *n.borrow())), m),
+            _ => span::Current::unknown(),
+        }
+    }
 }
 
 /// a future that is pending `n` times
@@ -88,9 +100,15 @@ pub fn drive<T>(fut: impl Future<Output = T>) -> T {
     let w = noop_waker();
     let mut cx = Context::from_waker(&w);
     let mut fut = Box::pin(fut);
+    // every poll after the first runs while ANOTHER collector is the thread's default (the span belongs to the collector the
+    // future was created under, and each poll must still run inside it)
+    let foreign = tracing_core::Dispatch::new(Rec(true));
+    let mut first = true;
     loop {
         LOG.with(|l| l.borrow_mut().push("poll".into()));
-        if let Poll::Ready(v) = fut.as_mut().poll(&mut cx) { return v; }
+        let r = if first || !UNDER_REC.with(|u| *u.borrow()) { fut.as_mut().poll(&mut cx) } else { tracing_core::dispatch::with_default(&foreign, || fut.as_mut().poll(&mut cx)) };
+        first = false;
+        if let Poll::Ready(v) = r { return v; }
     }
 }
 
@@ -124,10 +142,12 @@ pub fn run(cases: &[(fn() -> String, fn() -> String)]) {
     std::panic::set_hook(Box::new(|_| {}));
     let n = std::io::stdin().lock().lines().count();
     for (inst, plain) in cases.iter().take(n) {
-        let d = tracing_core::Dispatch::new(Rec);
+        let d = tracing_core::Dispatch::new(Rec(false));
         LOG.with(|l| l.borrow_mut().clear());
         FX.with(|l| l.borrow_mut().clear());
+        UNDER_REC.with(|u| *u.borrow_mut() = true);
         let a = tracing_core::dispatch::with_default(&d, || inst());
+        UNDER_REC.with(|u| *u.borrow_mut() = false);
         let log = take(&LOG);
         drop(d);
         let b = inst();
